@@ -117,7 +117,9 @@ CHECKS["C16"] = dict(
 CHECKS["C22"] = dict(
     level="translation_validation",
     text="extract_blocks runs on mixed-element and MixedFunctionSpace forms (mass, cross-weighted, gradient, "
-         "two-sided interior facet, linear), replace_argument on/off, all blocks or one at a time; z3 proves each "
+         "two-sided interior facet, linear; square systems and rectangular ones whose test and trial spaces have "
+         "different numbers of sub-elements or a plain trial space), replace_argument on/off, all blocks or one at a time; "
+         "the block table must be n_test x n_trial and z3 proves each "
          "block equals the form with the arguments replaced by the embedded i-th / j-th sub-functions for all "
          "values (so blocks sum to the form and depend only on their sub-functions); None blocks must be zero.",
     technique="SMT translation validation (z3 NRA) of block extraction against embedding semantics",
@@ -129,7 +131,9 @@ CHECKS["C07"] = dict(
          "and local facet; the lowered expression is denoted over symbolic edge vectors and z3 decides the "
          "specification predicates (K J = I, Gram-determinant volume identities, circumcentre equation, min/max "
          "edge lengths, unit/orthogonal/outward normals, ...) for all vertex positions; sign predicates are decided "
-         "as implications under the radical side facts.",
+         "as implications under the radical side facts. Context obligations: several quantities lowered in one call "
+         "(same mesh; two distinct meshes with equal coordinate elements, each denoted with its own primitive symbols) "
+         "must equal each lowered alone.",
     technique="SMT validation of lowered geometry against specification predicates (z3 NRA, radical rewriting)",
     design="§4 C07", engine="E1")
 
@@ -157,7 +161,7 @@ CHECKS["C17"] = dict(
 CHECKS["C23"] = dict(
     level="translation_validation",
     text="Complex mode: do_comparison_check alone and compute_form_data(complex_mode=True) run on comparison/min/max "
-         "skeletons; when they accept, z3 must prove that every compared operand (as written by the user, and as "
+         "skeletons (also beneath real/imag/abs/conj nodes); when they accept, z3 must prove that every compared operand (as written by the user, and as "
          "present after the whole pipeline) has imaginary part identically zero for arbitrary complex field data, "
          "and that the output equals the input on real data. Real mode: remove_complex_nodes output equals input on "
          "real data, Imag and complex literals must raise.",
@@ -168,7 +172,7 @@ CHECKS["C15"] = dict(
     level="translation_validation",
     text="group_form_integrals + build_integral_data run on forms whose integrands are distinct symbolic scalars, "
          "over subdomain-id patterns (ints, overlapping tuples, everywhere), metadata patterns (equal, different, "
-         "nested, int vs float vs str), integral types, coordinate-derivative stacks and both append options; per "
+         "nested, int vs float vs str, small arrays equal in bytes but not in shape / equal in shape but not in values), integral types, coordinate-derivative stacks and both append options; per "
          "(type, single subdomain / otherwise, metadata, derivative stack) z3 proves the output sum equals the sum "
          "of the originals that apply, so merging across different metadata shows up as a wrong sum.",
     technique="SMT (z3, linear real arithmetic over symbolic integrands) validation of integral regrouping",
